@@ -210,9 +210,20 @@ fn append_rotating(some: bool) {
     kani::assume(id.1 < 250);
     kani::assume(m.append_ok(id));
     unsafe { crate::raft_log::wal::kani_h_a_wal::ROTATE_NOW = true; }
-    let ok = is_ok(rl.append([(id, PR::new(p.n, p.b))]));
+    let r = rl.append([(id, PR::new(p.n, p.b))]);
     unsafe { crate::raft_log::wal::kani_h_a_wal::ROTATE_NOW = false; }
-    assert!(ok, "accepted append fails when it fills the chunk");
+    match r {
+        Ok(seg) => {
+            use codeq::OffsetSize;
+            // C11: the returned segment is the appended record (the last one of
+            // the chunk that was just closed), not the new chunk's head snapshot
+            assert!(seg.offset().0 + *seg.size() == rl.wal.open.chunk.global_start(), "segment returned by the append that filled the chunk is not where its record is");
+        }
+        Err(e) => {
+            core::mem::forget(e);
+            assert!(false, "accepted append fails when it fills the chunk");
+        }
+    }
     m.do_append(id, p);
     assert_matches(&rl, &m);
     // every live payload is still resident after the rotation (the read path
